@@ -173,9 +173,10 @@ func (g *guard) ReleaseTreasureGuard(guardID ID) {
 
 	if len(g.waitForUnlock) > 0 && g.waitForUnlock[0] == int64(guardID) {
 		g.waitForUnlock = g.waitForUnlock[1:]
-		if len(g.waitForUnlock) == 0 {
-			atomic.StoreInt64(&g.largestGuardID, 0)
-		}
+		// The ID counter is deliberately never reset: an ID must stay unique for
+		// the lifetime of the guard. If numbering restarted when the queue
+		// empties, a late or duplicate release of an old ID would match - and
+		// release - the guard of whoever holds it next.
 		g.cond.Broadcast()
 		return
 	}
